@@ -116,6 +116,28 @@ func genUntrusted(g *G, tier string, emit func(string)) {
 		}
 		em("c", "p", targets[0], a)
 	}
+	// every half float (zeros, subnormals, infinities, NaNs), every initial byte alone and followed by zeros,
+	// float32 / float64 specials: terminal decoders with loops of their own
+	for h := 0; h < 65536; h++ {
+		if tier != "thorough" && h%16 != 0 && h&0x7fff > 0x0410 && h&0x7c00 != 0x7c00 {
+			continue // quick: all zeros / subnormals / inf / NaN, every 16th normal
+		}
+		b := []byte{0xf9, byte(h >> 8), byte(h)}
+		em("c", "u", targets[0], b)
+		if h%64 == 0 {
+			em("c", "p", targets[0], b)
+		}
+	}
+	for ib := 0; ib < 256; ib++ {
+		em("c", "u", targets[0], []byte{byte(ib)})
+		em("c", "u", targets[0], append([]byte{byte(ib)}, make([]byte, 16)...))
+		em("c", "p", targets[0], append([]byte{byte(ib)}, bytes.Repeat([]byte{0xff}, 16)...))
+	}
+	for _, f := range [][]byte{{0xfa, 0, 0, 0, 0}, {0xfa, 0x80, 0, 0, 0}, {0xfa, 0, 0, 0, 1}, {0xfa, 0x7f, 0x80, 0, 0}, {0xfa, 0xff, 0xc0, 0, 1},
+		{0xfb, 0, 0, 0, 0, 0, 0, 0, 0}, {0xfb, 0x80, 0, 0, 0, 0, 0, 0, 0}, {0xfb, 0, 0, 0, 0, 0, 0, 0, 1}, {0xfb, 0x7f, 0xf0, 0, 0, 0, 0, 0, 0}, {0xfb, 0x7f, 0xf8, 0, 0, 0, 0, 0, 1}} {
+		em("c", "u", targets[0], f)
+		em("c", "p", targets[0], f)
+	}
 	var jadv [][]byte
 	for _, d := range depths {
 		jadv = append(jadv, bytes.Repeat([]byte("["), d), []byte(strings.Repeat("[", d)+strings.Repeat("]", d)), []byte(strings.Repeat(`{"k":`, d)+"1"+strings.Repeat("}", d)), []byte(strings.Repeat(`{"k":`, d)))
